@@ -85,11 +85,14 @@ func vHostileBytes(r *rand.Rand, lic []byte, k int) []byte {
 	case 12: // hyphen immediately before EOF, with and without spaces
 		return []byte(string(lic[:vMin(len(lic), 300)]) + []string{" foo-", " foo-\n", " foo- \n ", "-", " a-\n\n", "foo-\n   "}[r.Intn(6)])
 	case 13: // HTML entities
-		ents := []string{"&#0;", "&#xD800;", "&amp;amp;", "&#x10FFFF;", "&#1114112;", "&unknownentity;", "&", "&#", "&#x", "&lt", "&copy;", "&#169;", "&nbsp;", "&#x0a;", "&#10;", "&NewLine;", "&#xfffffffff;", "&amp", "&;"}
+		ents := []string{"&#0;", "&#xD800;", "&amp;amp;", "&#x10FFFF;", "&#1114112;", "&unknownentity;", "&", "&#", "&#x", "&lt", "&copy;", "&#169;", "&nbsp;", "&#x0a;", "&#10;", "&NewLine;", "&#xfffffffff;", "&amp", "&;",
+			// references that decode to punctuation only, to blanks, to word-start characters
+			"&#41;", "&#46;", "&#58;", "&period;", "&colon;", "&rpar;", "&lpar;", "&#x29;", "&#45;", "&hyphen;", "&dash;", "&comma;", "&#32;", "&#9;", "&Tab;", "&excl;", "&quot;", "&apos;", "&num;", "&ast;", "&sol;",
+			"&#47;&#47;", "1&period;", "a&rpar;", "&lpar;a&rpar;", "&#49;&#46;", "&#38;", "&#38;#41;", "&#40;", "&semi;", "&#x2010;", "&#8208;", "&mdash;", "&shy;", "&#173;", "&zwnj;", "&#65279;"}
 		var b bytes.Buffer
 		for i := 0; i < 1+r.Intn(120); i++ {
 			b.WriteString(ents[r.Intn(len(ents))])
-			b.WriteString([]string{"", " ", "x", "\n", "copyright "}[r.Intn(5)])
+			b.WriteString([]string{"", " ", "x", "\n", "copyright ", " \n", "\n\n"}[r.Intn(7)])
 		}
 		return b.Bytes()
 	case 14:
@@ -104,7 +107,11 @@ func vHostileBytes(r *rand.Rand, lic []byte, k int) []byte {
 	case 16: // header look-alikes alone on lines
 		var b bytes.Buffer
 		for i := 0; i < 1+r.Intn(200); i++ {
-			b.WriteString([]string{"1.", "a.", "1.2.3.", "iv.", "A)", "ii:", ":", ".", ")", "a)", "xv.", "1.a.", "(a)", "(1)", "1)", "..:"}[r.Intn(16)])
+			h := []string{"1.", "a.", "1.2.3.", "iv.", "A)", "ii:", ":", ".", ")", "a)", "xv.", "1.a.", "(a)", "(1)", "1)", "..:"}[r.Intn(16)]
+			if k/vHostileKinds%2 == 1 || r.Intn(3) == 0 {
+				h = vEntEncode(r, h)
+			}
+			b.WriteString(h)
 			b.WriteString([]string{"\n", " \n", " x\n", "\n\n"}[r.Intn(4)])
 		}
 		return b.Bytes()
@@ -187,6 +194,29 @@ func vHostileBytes(r *rand.Rand, lic []byte, k int) []byte {
 		}
 		return b.Bytes()
 	}
+}
+
+// vEntEncode writes some characters of s as HTML character references.
+func vEntEncode(r *rand.Rand, s string) string {
+	named := map[rune]string{'.': "&period;", ':': "&colon;", ')': "&rpar;", '(': "&lpar;"}
+	var sb strings.Builder
+	for _, c := range s {
+		switch r.Intn(4) {
+		case 0:
+			fmt.Fprintf(&sb, "&#%d;", c)
+		case 1:
+			fmt.Fprintf(&sb, "&#x%x;", c)
+		case 2:
+			if n, ok := named[c]; ok {
+				sb.WriteString(n)
+			} else {
+				sb.WriteRune(c)
+			}
+		default:
+			sb.WriteRune(c)
+		}
+	}
+	return sb.String()
 }
 
 var vBigInputs = false
@@ -283,6 +313,29 @@ func TestVerifC10(t *testing.T) {
 				// inputs for the embedded and the degenerate corpora
 				in = in[:200000]
 			}
+			var skew []string
+			if corpus == "repetitive" {
+				voc := []string{"alpha", "beta", "gamma", "delta", "epsilon", "zeta", "eta", "theta", "iota", "kappa", "lambda", "mu", "nu", "xi", "omicron"}
+				nd := 2 + r.Intn(len(voc)-2)
+				head := strings.Join(voc[:nd], " ")
+				rp := strings.Repeat([]string{" omega", " omega psi", " a"}[r.Intn(3)], 5+r.Intn(200))
+				var doc string
+				switch r.Intn(3) {
+				case 0:
+					doc = head + rp
+				case 1:
+					doc = strings.TrimSpace(rp) + " " + head
+				default:
+					doc = strings.Join(voc[:nd/2], " ") + rp + " " + strings.Join(voc[nd/2:nd], " ")
+				}
+				w := strings.Fields(doc)
+				lo := r.Intn(len(w))
+				part := strings.Join(w[lo:lo+r.Intn(len(w)-lo)+1], " ")
+				skew = []string{doc, head + strings.Repeat(" omega", r.Intn(4)), part}
+				if r.Intn(2) == 0 {
+					in = []byte(skew[1+r.Intn(2)] + "\n" + string(in[:vMin(len(in), 200)]))
+				}
+			}
 			cs.hostileInput(in)
 			var c *Classifier
 			switch corpus {
@@ -312,6 +365,14 @@ func TestVerifC10(t *testing.T) {
 				c.AddContent("License", "R1", "a.txt", []byte(strings.Repeat("a b ", 60)))
 				c.AddContent("License", "R2", "b.txt", []byte(strings.Repeat("a ", 150)))
 				c.AddContent("License", "R3", "c.txt", []byte(strings.Repeat("a-\n", 80)))
+				// a document dominated by one repeated word (a table, a signature block)
+				// and inputs that hold its distinct words but far fewer tokens
+				if skew != nil {
+					c.AddContent("License", "Skewed", "d.txt", []byte(skew[0]))
+					c.Match([]byte(skew[1]))
+					c.Match([]byte(skew[2]))
+					e.count("match_calls", 2)
+				}
 			}
 			sha := vSha(in)
 			c.Match(in)
